@@ -109,9 +109,11 @@ Print Assumptions css_token_sequences.
    Whitespace: a non-empty run of whitespace bytes; Comment: "/*", a body without "*/", and then either "*/" or
    nothing (only the last token of the input can be of the second form, by css_tiling and css_relex_idempotent);
    Colon, Semicolon, Comma, the six brackets, the five match operators, Column, CDO, CDC: exactly their bytes
-   (fixed_tokens); Delim: one byte.
-   MISSING (shaped ty = false, nothing is claimed): Ident, CustomPropertyName, Function, AtKeyword, Hash, Number,
-   Percentage, Dimension, String, BadString, URL, BadURL, UnicodeRange. *)
+   (fixed_tokens); Delim: one byte; Number: the number diagram num_text ([+-]? (digits ('.' digits)? | '.' digits)
+   ([eE] [+-]? digits)?); Percentage: num_text followed by "%"; UnicodeRange: [uU] "+" and either 1..6 hex digits
+   and "?" (hex digits first), or two runs of 1..6 hex digits around "-" (ur_shape).
+   MISSING (shaped ty = false, nothing is claimed): Ident, CustomPropertyName, Function, AtKeyword, Hash, Dimension
+   (its unit is a name), String, BadString, URL, BadURL - the types whose text can contain escapes. *)
 Theorem css_tokens_shaped : forall d toks ty b, css_lex d = LexDone toks -> In (ty, b) toks ->
   shaped ty = true -> tok_shape ty b.
 Proof. exact css_tokens_shaped_proof. Qed.
